@@ -39,7 +39,7 @@ ASSUMPTIONS = ['no key joins in this check (C11 covers them)', 'oracle only at q
                'adding the same LinkCollection twice raises AttributeError in glue; modelled as a loud rejection']
 PROBES = ['chain_depth_ge_2', 'chain_depth_ge_3', 'cycle_or_diamond_choice', 'link_autoremoved_by_component', 'link_autoremoved_by_dataset',
           'reappend_after_links', 'ops_in_link_delay_window', 'rejected_extend', 'duplicate_link', 'multi_input_reached',
-          'incompatible_checked', 'aligned_link', 'mask_selection_on_linked_dataset']
+          'incompatible_checked', 'aligned_link', 'mask_selection_on_linked_dataset', 'component_removed_from_removed_dataset', 'component_removed_from_removed_dataset_in_hub_window']
 
 WEIGHTS = {'new': 3, 'append': 4, 'remove': 1.5, 'add_comp': 2, 'add_derived': 2, 'remove_comp': 1.5, 'add_link': 9,
            'add_again': 0.7, 'remove_link': 2.5, 'set_links': 0.7, 'delay_open': 1.5, 'delay_close': 2, 'extend_junk': 0.5,
@@ -68,7 +68,7 @@ def generate(rng, cfg, guards):
         elif k == 'add_derived':
             ops.append([k, r8(), r8(), rng.pick(sorted(LF.ONE))])
         elif k == 'remove_comp':
-            ops.append([k, r8(), r8()])
+            ops.append([k, r8(), r8(), rng.pick([False] * 6 + ['pool', 'last', 'last', 'last'])])
         elif k == 'add_link':
             kind = rng.wpick(KINDS)
             ops.append([k, kind, r8(), r8(), r8(), r8(), rng.pick(sorted(LF.ONE)), r8(), rng.pick(sorted(LF.TWO))])
@@ -78,6 +78,16 @@ def generate(rng, cfg, guards):
             ops.append([k, rng.randrange(256)])
         else:
             ops.append(W.gen_common(rng, k))
+    if rng.chance(0.3):
+        # a fault placed right after a membership change: a dataset leaves the collection and is modified while its
+        # removal is still queued in a hub window (either order)
+        h = r8()
+        snip = [['remove', h], ['remove_comp', h, r8(), 'last']]
+        if rng.chance(0.3):
+            snip = [['remove_comp', h, r8(), False], ['remove', h]]
+        snip = [['delay_open', 'hub']] + snip + [['delay_close', False]]
+        at = rng.randrange(len(ops) // 2, len(ops) + 1)
+        ops[at:at] = snip
     return {'knobs': {'guards': list(guards), 'prop': PROP}, 'ops': ops}
 
 
@@ -156,6 +166,7 @@ def execute(case, res):
     m = Model()
     ncomp = [0]
     pending = []
+    last_removed = [None]
 
     def own_cids(d):
         return [c for c in d.components if c not in d.coordinate_components]
@@ -196,6 +207,7 @@ def execute(case, res):
                 d = w.pick_data(op[1])
                 if d is not None:
                     dc.remove(d)
+                    last_removed[0] = d
                     pending.append(('data', d))
             elif k == 'add_comp':
                 d = w.pick_data(op[1])
@@ -213,8 +225,14 @@ def execute(case, res):
                     d.add_component_link(ComponentLink([src], to, using=LF.ONE[op[3]][0]))
                     m.derived.setdefault(d, []).append(((src,), to, (op[3], False)))
             elif k == 'remove_comp':
-                d = w.pick_data(op[1])
+                # op[3]: any dataset ever made, also one that has left the collection (its queued removal may still be in a window)
+                how = op[3] if len(op) > 3 else False
+                d = last_removed[0] if how == 'last' else w.pick_pool(op[1]) if how else w.pick_data(op[1])
                 if d is not None:
+                    if d not in list(dc):
+                        res.probe('component_removed_from_removed_dataset')
+                        if any(kk == 'hub' for kk, _ in w.cms):
+                            res.probe('component_removed_from_removed_dataset_in_hub_window')
                     cands = own_cids(d)
                     if len(d.main_components) > 1 or any(c in d.derived_components for c in cands):
                         cid = cands[op[2] % len(cands)]
